@@ -122,6 +122,13 @@ def gen_statement(rng, cat, allow_notaction=True):
     return st
 
 
+def small_pattern_of(rng, cat):
+    """a service-wide or prefix pattern (matches some but not all of the catalogue)"""
+    a = rng.choice(cat)
+    svc, name = a.split(":", 1)
+    return rng.choice([svc + ":*", svc + ":" + name[:3] + "*", a, "iam:*", "s3:Delete*"])
+
+
 def gen_statements(rng, cat):
     n = rng.choice([1, 1, 2, 2, 3, 4])
     # at most one statement with NotAction per document keeps the run time bounded (each complement is ~18k entries)
@@ -502,6 +509,16 @@ def cases(rng, tier, shard, nshards):
                 two = [{"effect": "Allow", "action": ps, "notaction": None}, {"effect": "Allow", "action": None, "notaction": ps}]
                 if rng.random() < 0.5:
                     two.reverse()
+                yield ALLOWED, {"statements": two, "single": False}
+                yield IAM, {"statements": two, "single": False}
+            if k % 20 == 16:
+                # two Allow statements with DIFFERENT NotAction lists: the document allows the union of the two complements, i.e.
+                # everything outside the intersection (seeded change C09-r6Am1 pooled the NotAction patterns of all statements and
+                # took one complement: the complement of the union)
+                ps, qs = [small_pattern_of(rng, cat)], [small_pattern_of(rng, cat)]
+                two = [{"effect": "Allow", "action": None, "notaction": ps}, {"effect": "Allow", "action": None, "notaction": qs}]
+                if rng.random() < 0.4:
+                    two.insert(rng.randrange(3), {"effect": rng.choice(["Allow", "Deny"]), "action": gen_patterns(rng, cat) or ["s3:GetObject"], "notaction": None})
                 yield ALLOWED, {"statements": two, "single": False}
                 yield IAM, {"statements": two, "single": False}
         elif r == 7:
